@@ -18,8 +18,10 @@ from .lib import CheckError
 def scanners(F):
     """functions that walk a *closure body* and single out global-index opcodes: they read
     ByteCodeLambda.body_exp / SerializedLambda.body_exp and have a switch on OpCode in which CALLGLOBAL and PUSH
-    share an arm. Discovered, not listed, so a new scanner is covered. (Top-level Executable scanners such as
-    eval_program are out of scope: top-level code does not outlive its evaluation.)"""
+    share an arm — in their own body or in a predicate helper taking an OpCode that they call (one or two calls deep).
+    Discovered, not listed, so a new scanner is covered. (Top-level Executable scanners such as eval_program are out of
+    scope: top-level code does not outlive its evaluation.) Yields (scanner, switch block, opcodes of the arm, body
+    kinds, function owning the switch)."""
     out = []
     for n, fn in F.fns.items():
         if not n.startswith("steel::") or "::jit2::" in n:
@@ -28,11 +30,28 @@ def scanners(F):
                 if e[2] == "body_exp" and e[1] in ("ByteCodeLambda", "SerializedLambda", "SerializedLambdaPrototype")]
         if not body:
             continue
-        for sb in lib.enum_switches(fn, "OpCode"):
-            m = lib.arm_map(fn, sb)
-            if "CALLGLOBAL" in m and "PUSH" in m and m["CALLGLOBAL"] == m["PUSH"] and m["PUSH"] != m["_"]:
-                arm = sorted(v for v, t in m.items() if t == m["PUSH"] and v != "_")
-                out.append((fn, sb, arm, set(body)))
+        owners = [fn]
+        seen = {n}
+        frontier = [fn]
+        for _ in range(2):
+            nxt = []
+            for g in frontier:
+                for _, cb in lib.family_calls(F, g):
+                    c = cb["callee"]
+                    if c in seen or c not in F.fns or not c.startswith("steel::"):
+                        continue
+                    seen.add(c)
+                    h = F.fns[c]
+                    if any("OpCode" in t for t in h.d.get("in", [])) and len(h.blocks) < 60:
+                        owners.append(h)
+                        nxt.append(h)
+            frontier = nxt
+        for own in owners:
+            for sb in lib.enum_switches(own, "OpCode"):
+                m = lib.arm_map(own, sb)
+                if "CALLGLOBAL" in m and "PUSH" in m and m["CALLGLOBAL"] == m["PUSH"] and m["PUSH"] != m["_"]:
+                    arm = sorted(v for v, t in m.items() if t == m["PUSH"] and v != "_")
+                    out.append((fn, sb, arm, set(body), own))
     return out
 
 
@@ -176,7 +195,7 @@ def _run(F, R, ctx):
     R.note("GIDX_V=%s; GIDX_C=%s; required in scanners (GIDX_V∩EMIT minus BIND)=%s." % (sorted(gv), sorted(gc), need))
     sc = scanners(F)
     R.floor("C06.T2", "scanners", len(sc), 3)
-    names = [fn.name for fn, _, _, _ in sc]
+    names = [fn.name for fn, _, _, _, _ in sc]
     for want in (r"for GlobalSlotRecycler\}::visit_closure$", r"\{impl ByteCodeLambda\}::from_serialized$",
                  r"threads::closure_into_serializable$"):
         if not any(re.search(want, n) for n in names):
@@ -184,24 +203,24 @@ def _run(F, R, ctx):
     # does jit_compile_lambda (still) overwrite the first opcode?
     jl = F.one(r"^steel::steel_vm::vm::jit::jit_compile_lambda$")
     trampoline = any(e[1] == "OpCode" and e[2] == "DynSuperInstruction" for _, _, e in jl.events("agg"))
-    for fn, sb, arm, body in sc:
+    for fn, sb, arm, body, own in sc:
         for op in need:
             R.inst("C06.T2", "%s / missing OpCode::%s" % (fn.short(), op), op in arm,
                    "%s scans closure bodies for global-slot references but its opcode set %s lacks %s, which the VM "
                    "executes as a global-slot access: a slot referenced only through %s is treated as dead / not "
-                   "rewritten" % (fn.short(), arm, op, op), fn.loc(fn.blocks[sb]["line"]),
+                   "rewritten" % (fn.short(), arm, op, op), own.loc(own.blocks[sb]["line"]),
                    sample={"scanner": fn.short(), "arm": arm})
         if trampoline and "ByteCodeLambda" in body:
             hdr = [i for i, _, e in fn.events("fld") if e[1] == "ByteCodeLambda" and e[2] == "header"]
             before = bool(hdr)
-            m = lib.arm_map(fn, sb)
+            m = lib.arm_map(own, sb)
             matches_tramp = "DynSuperInstruction" in m and m["DynSuperInstruction"] != m["_"]
             R.inst("C06.H", "%s / ignores trampoline header" % fn.short(), before or matches_tramp,
                    "%s matches on ByteCodeLambda.body_exp[i].op_code but does not consult ByteCodeLambda.header before "
                    "or during the scan (nor match DynSuperInstruction); after jit_compile_lambda the first "
                    "instruction's opcode is the trampoline, so a global referenced by the first instruction is "
                    "invisible to this scanner" % fn.short(),
-                   fn.loc(fn.blocks[sb]["line"]), sample={"scanner": fn.short(), "header_reads": len(hdr)})
+                   own.loc(own.blocks[sb]["line"]), sample={"scanner": fn.short(), "header_reads": len(hdr)})
     # ---- R recycler traversal: slot liveness is decided by walking every value reachable from the live globals
     R.rule("C06.R", "the global-slot recycler's walk is complete: each GlobalSlotRecycler::visit_<kind> reads every "
                     "handle-bearing field of the kind's payload on every path (same rule as C04.a), and visit_closure "
